@@ -145,7 +145,7 @@ fn run_property(prop: &dyn Property, cfg: &Cfg) -> i32 {
         c2.tier = tier;
         let mut acc = Acc::new();
         acc.max_violations = 100;
-        prop.run_case(&c2, case, &mut acc);
+        util::trace::scoped(case % 3 == 1, || prop.run_case(&c2, case, &mut acc));
         println!("replayed property={} seed={} tier={} case={}: {} violation(s)", prop.id(), seed, tier.name(), case, acc.violation_count);
         for v in &acc.violations {
             println!("  [{}] {}", v.sig.as_deref().unwrap_or("-"), v.summary);
